@@ -173,6 +173,15 @@ template <int bits> static void bigint_rows(const char* n) {
 #undef NM
 }
 
+// another representative of the same point: (x l^2, y l^3, z l) with l taken from the point's own coordinates (non-zero unless degenerate)
+template <typename G> static void rescale(G& c, const G& a) {
+    auto l = a.y; l.add(l, a.x);
+    if (l.is_zero()) l.copy(decltype(l)::one);
+    auto l2 = l; l2.square(l);
+    auto l3 = l2; l3.multiply(l2, l);
+    c.x.multiply(a.x, l2); c.y.multiply(a.y, l3); c.z.multiply(a.z, l);
+}
+
 template <typename G, typename GA> static void curve_rows(const char* n) {
     char nm[64];
 #define NM(s) (snprintf(nm, sizeof nm, "%s::%s", n, s), nm)
@@ -180,6 +189,18 @@ template <typename G, typename GA> static void curve_rows(const char* n) {
     // P + P and P + (-P) through add with out = a
     binary_g<G, G>(NM("add(P,P)"), 1, [](G& a, int t) { gen(a, t + 1); }, [](G& b, int t) { (void) t; b.copy(G::zero); },
                    [](G& o, const G& a, const G& b) { (void) b; G c; c.copy(a); o.add(a, c); });
+    // ... and the same point / its negative in ANOTHER Jacobian representative (x l^2, y l^3, z l): the equal-points detour of the addition
+    // is then reached through the computed U1 == U2, S1 == S2 comparison, not through byte equality
+    binary_g<G, G>(NM("add(P,P')"), 1, [](G& a, int t) { gen(a, t + 1); }, [](G& b, int t) { (void) t; b.copy(G::zero); },
+                   [](G& o, const G& a, const G& b) { (void) b; G c; rescale(c, a); o.add(a, c); });
+    binary_g<G, G>(NM("add(P',P)"), 1, [](G& a, int t) { G p; gen(p, t + 1); rescale(a, p); }, [](G& b, int t) { (void) t; b.copy(G::zero); },
+                   [](G& o, const G& a, const G& b) { (void) b; GA n; n.from_projective(a); G c; c.from_affine(n); o.add(a, c); });
+    binary_g<G, G>(NM("add(P,-P')"), 1, [](G& a, int t) { gen(a, t + 1); }, [](G& b, int t) { (void) t; b.copy(G::zero); },
+                   [](G& o, const G& a, const G& b) { (void) b; G c; rescale(c, a); c.negate(c); o.add(a, c); });
+    binary_g<G, G>(NM("add_mixed(P,P)"), 1, [](G& a, int t) { gen(a, t + 1); }, [](G& b, int t) { (void) t; b.copy(G::zero); },
+                   [](G& o, const G& a, const G& b) { (void) b; GA c; c.from_projective(a); o.add(a, c); });
+    binary_g<G, G>(NM("add_mixed(P,-P)"), 1, [](G& a, int t) { gen(a, t + 1); }, [](G& b, int t) { (void) t; b.copy(G::zero); },
+                   [](G& o, const G& a, const G& b) { (void) b; GA c; c.from_projective(a); c.negate(c); o.add(a, c); });
     binary<G, GA>(NM("add_mixed"), 1, [](G& o, const G& a, const GA& b) { o.add(a, b); });
     unary<G>(NM("multiply2"), [](G& o, const G& a) { o.multiply2(a); });
     unary<G>(NM("negate"), [](G& o, const G& a) { o.negate(a); });
